@@ -5,14 +5,14 @@ from props.common import *
 
 ID = 'C12'
 PROPS_MODULE = 'Props.C12'
-THEOREMS = ['C12_dims_correct', 'C12_example']
-VO = ['theories/Props/C12.vo', 'theories/Run/RunGen.vo']
+THEOREMS = ['C12_dims_correct', 'C12_example', 'C12_skip_mask', 'C12_prefix']
+VO = ['theories/Props/C12.vo', 'theories/Run/RunGen.vo', 'theories/Run/RunDtcwt.vo']
 RULE = ('translator validation: the generated get_dimensions5/6 and both copies of mode_to_int/int_to_mode evaluated in Coq on the whole '
         'domain ([-6,6)^2; all mode names and codes -1..8) vs the Python functions; oracle on the real modules: every ordered pair of '
         'distinct axis positions and negative aliases (layout = movedim of the default layout, inverse with the same pair), every skip mask, '
         'every include_scale mask, prefix consistency; distinct by (check kind, o_dim, ri_dim, masks, J, size)')
 TRUSTED = TRUSTED_COMMON + ['the truth for axis positions is defined in Coq by list insertion (Proofs/DimsProofs.v), not by another table']
-ASSUMES = ['the theorem covers the axis tables generated from the source on this run; stack/unbind/skip/include_scale/prefix behaviour of the modules is checked by the oracle on the real code (and by the DTCWT module model, see C03/C11)']
+ASSUMES = ['the theorem covers the axis tables generated from the source on this run; skip masks and prefix consistency (first j levels and the lowpass after each level) are theorems about the level loop of the DTCWT module model (C12_skip_mask, C12_prefix; model tied to DTCWTForward with every skip mask and include_scale by the exact correspondence of C03); the 6-D stack/unbind placement itself is checked by the exhaustive oracle on the real modules']
 
 NAMES = ["zero", "symmetric", "per", "periodization", "constant", "reflect", "replicate", "periodic", "foo", ""]
 
@@ -36,6 +36,11 @@ def corr_jobs(tier, rng):
     for k in range(-1, 9):
         cs.append(vlib.Case(203, [k], [], [], [safe(dl.int_to_mode, k, True), safe(sl.int_to_mode, k, True)], dict(fn='int_to_mode', code=k)))
     yield dict(name='generated_vs_python', module='Run.RunGen', runner='run_gen', cases=cs, against='impl')
+    # the level-loop model that C12_skip_mask / C12_prefix are about, against DTCWTForward with every skip mask (J <= 2) and the end masks (J = 3)
+    import corr_dtcwt as cd
+    sizes = [(8, 8), (6, 10), (7, 9)] if tier == 'quick' else [(8, 8), (6, 10), (7, 9), (12, 4), (16, 20)]
+    ms = [c for c in cd.cases_modules(rng, sizes, Js=(1, 2, 3), masks='all', absent=False) if c.entry == 39]
+    yield dict(name='module_model_vs_impl', module='Run.RunDtcwt', runner='run_dtcwt', cases=ms, against='impl')
 
 
 def pairs():
